@@ -74,6 +74,14 @@ register("C03",
          "Trusted: Coq kernel; Model/MultiFact.v hand-written, tied by differential testing; DuckDB as oracle. The theorems cover the outer join; that each sub-query equals the single-metric query is by construction of the code (same generate() call) and checked by the oracle. No axioms.",
          "Coq proof about the outer-join combinator + model/implementation correspondence; oracle from the implementation's own single-metric queries", "DESIGN.md section 6/C03")
 
+register("C04",
+         "Machine-checked Coq theorems: one conjunction = several filters = any order = applied one after the other under SQL three-valued logic (C04_conj/order/sequential, any filter list, any table); "
+         "pushing a filter into the joined model's sub-query and INNER-joining it equals joining all rows and keeping the wide rows whose slot satisfies the filter (C04_pushdown, any wide-row bag); after an INNER step every wide row is connected to a row of the filtered model and later steps keep that slot (semi-join reading); "
+         "a metric's own filters touch only its column. Tied to the code through the C02 plan/join model executed on filtered queries, and by metamorphic runs on the implementation: list / one conjunction / reversed / segment with {model} / segment with bare columns must agree, "
+         "a metric-value filter must equal post-filtering, a metric filter must not change other metrics. Partial: segment resolution, the text-level model.field rewriting and relative dates are exercised end to end only.",
+         "Trusted: Coq kernel; Model/Sem.v, Model/Join.v, Model/Plan.v hand-written (tied by differential testing); sqlglot parse/print of filters as oracle; the C02 finding classes K1/K2 exempt the affected metric columns. No axioms.",
+         "Coq proofs about 3VL filters and join-step pushdown; metamorphic + model/implementation correspondence", "DESIGN.md section 6/C04")
+
 PENDING = "check not built yet in this revision (see DESIGN.md section 10 build order)"
 
 
